@@ -94,7 +94,7 @@ var c13Triage = map[string]string{
 	`K4:node.BuildConstraints/p[0]`:                   rQuery,
 	`K4:node.findIntParam/v[0]`:                       rQuery,
 	`K4:nodeutil.Node.DoGetByRow/r.Meta.KeyMeta()[0]`: rSchema + ": reached only for keyed lists (the enclosing branch tests len(KeyMeta()))",
-	`K4:nodeutil.Reflect.listMap$1/key[0]`:            rKey,
+	`K4:nodeutil.Reflect.listMap$1/key[0]`:            "both uses sit under isKeyValid(key) (non-empty, no nil element) in the same closure: the new-entry branch returns a bad request otherwise, the lookup branch falls to the by-row walk",
 	`K4:nodeutil.mapAsList.deleteByKey/r.Key[0]`:      rKey,
 	`K4:nodeutil.mapAsList.getByKey/r.Key[0]`:         rKey,
 	`K4:nodeutil.mapAsList.newListItem/r.Key[0]`:      rKey,
